@@ -74,11 +74,16 @@ def array_forms(u, c, vals, kind, with_unit_only):
     return F, G
 
 
-def fraction_forms(u, c, v, with_unit_only):
+def fraction_forms(u, c, v, with_unit_only, plain_float=False):
     from barril.basic.fraction import FractionValue
     from barril.units import FractionScalar, ObtainQuantity
 
-    fv = lambda: FractionValue(int(v), (1, 2))  # noqa
+    # the value is given either as a FractionValue or as a plain float with a fractional part (the constructor
+    # coerces it): both ways every form must store the same thing
+    if plain_float:
+        fv = lambda: float(int(v)) + 0.75  # noqa
+    else:
+        fv = lambda: FractionValue(int(v), (1, 2))  # noqa
     F = [
         ("FractionScalar(c,fv,u)", lambda: FractionScalar(c, fv(), u)),
         ("FractionScalar(ObtainQuantity(u,c),fv)", lambda: FractionScalar(ObtainQuantity(u, c), fv())),
@@ -149,6 +154,7 @@ def unit_sweep(ctx, db, r):
                     compare_forms(ctx, fa, case2, "Array[%s]" % kind)
                     compare_forms(ctx, ga, case2, "FixedArray[%s]" % kind)
                     compare_forms(ctx, fraction_forms(u, c2, v, False), case2, "FractionScalar")
+                    compare_forms(ctx, fraction_forms(u, c2, v, False, True), case2, "FractionScalar(float)")
             # pass 2: everything again under the default category, unit-only forms included
             again = compare_forms(ctx, scalar_forms(u, dc, v, True), case, "Scalar")
             if first is not None and again is not None:
@@ -160,6 +166,7 @@ def unit_sweep(ctx, db, r):
                 compare_forms(ctx, fa, case, "Array[%s]" % k)
                 compare_forms(ctx, ga, case, "FixedArray[%s]" % k)
             compare_forms(ctx, fraction_forms(u, dc, v, True), case, "FractionScalar")
+            compare_forms(ctx, fraction_forms(u, dc, v, True, True), case, "FractionScalar(float)")
             ctx.nt((u, dc))
             # repr round trip
             ctx.ev()
